@@ -428,7 +428,7 @@ func (f *FnEnc) havocFreshSince(st *State, since string) {
 		setHeap(st, so, nh)
 	}
 	for _, k := range sortedHeapKeys(st.heaps) {
-		if !strings.HasPrefix(k, "map:") {
+		if !strings.HasPrefix(k, "map:") || strings.HasPrefix(k, "map:rangevis:") {
 			continue
 		}
 		h := st.heaps[k]
@@ -459,6 +459,9 @@ func (f *FnEnc) havocAllOpt(st *State, keepGhost bool) {
 		if strings.HasPrefix(k, "map:") {
 			if keepGhost && strings.HasPrefix(k, "map:ghost:") {
 				continue
+			}
+			if strings.HasPrefix(k, "map:rangevis:") {
+				continue // specification-only loop state, not memory
 			}
 			delete(st.heaps, k)
 		}
@@ -610,12 +613,12 @@ func (f *FnEnc) mapFrameObligations(guard string, old, cur *State, rs []Region, 
 	// map heaps
 	keys := map[string]bool{}
 	for k := range old.heaps {
-		if strings.HasPrefix(k, "map:") {
+		if strings.HasPrefix(k, "map:") && !strings.HasPrefix(k, "map:rangevis:") {
 			keys[k] = true
 		}
 	}
 	for k := range cur.heaps {
-		if strings.HasPrefix(k, "map:") {
+		if strings.HasPrefix(k, "map:") && !strings.HasPrefix(k, "map:rangevis:") {
 			keys[k] = true
 		}
 	}
@@ -682,7 +685,7 @@ func (f *FnEnc) localsEnv(fr *Frame) func(name string, st *State) (Val, bool) {
 }
 
 func (f *FnEnc) specEnvFor(fr *Frame, cur *State, guard string) *SpecEnv {
-	se := &SpecEnv{f: f, pkg: pkgOf(fr.fn), vars: map[string]Val{}, oldVars: map[string]Val{}, cur: cur, old: f.st0, guard: guard}
+	se := &SpecEnv{f: f, pkg: pkgOf(fr.fn), vars: map[string]Val{}, oldVars: map[string]Val{}, cur: cur, old: f.st0, guard: guard, fr: fr}
 	se.locals = f.localsEnv(fr)
 	if fr == f.top {
 		for k, v := range f.params {
@@ -817,6 +820,24 @@ func (f *FnEnc) havocLoop(fr *Frame, li *loopInfo, ls *LoopSpec, st *State) *Sta
 		t := derefType(a.Type())
 		v := f.freshVal("lh_"+a.Comment, t)
 		st.locals[a] = v.L
+	}
+	// the visited-sets of the range-over-map statements stepped in this loop
+	var bodyBlocks []*ssa.BasicBlock
+	for b := range li.body {
+		bodyBlocks = append(bodyBlocks, b)
+	}
+	sort.Slice(bodyBlocks, func(i, j int) bool { return bodyBlocks[i].Index < bodyBlocks[j].Index })
+	for _, b := range bodyBlocks {
+		for _, in := range b.Instrs {
+			if nx, ok := in.(*ssa.Next); ok && !nx.IsString {
+				if rng, ok := nx.Iter.(*ssa.Range); ok {
+					if mt, ok := rng.X.Type().Underlying().(*types.Map); ok {
+						vk := f.rangeVisKey(fr, rng, mt)
+						setHeap(st, vk, f.c.fresh("lh_rvis", fmt.Sprintf("(Array %s Bool)", f.mapKeySort(mt))))
+					}
+				}
+			}
+		}
 	}
 	return st
 }
@@ -1374,7 +1395,7 @@ func (f *FnEnc) mapVersion(st *State) int {
 	var b strings.Builder
 	fmt.Fprintf(&b, "%d", st.epoch)
 	for _, k := range sortedHeapKeys(st.heaps) {
-		if !strings.HasPrefix(k, "map:") || strings.HasPrefix(k, "map:ghost:") {
+		if !strings.HasPrefix(k, "map:") || strings.HasPrefix(k, "map:ghost:") || strings.HasPrefix(k, "map:rangevis:") {
 			continue
 		}
 		if st.heaps[k] == fmt.Sprintf("%s@%d", sanitize(k), st.epoch) {
